@@ -338,6 +338,11 @@ func checkC11(c *Ctx) {
 	scopeRuns(c, p, c11Build(c.Seed), judge)
 	close(follow)
 	wg.Wait()
+	wideGlobal(c, p, "C11", func(want, refs1, refs2, ren []string, defs map[string][]string, raw json.RawMessage) {
+		if strings.Join(ren, " ") != strings.Join(want, " ") {
+			c.Rep.Violation(raw, fmt.Sprintf("a global defined in def.lua and used in 27 further files (one of them created after start-up): the rename edit has %d edits {%s}, the occurrences are the %d {%s}", len(ren), clip(strings.Join(ren, " "), 400), len(want), clip(strings.Join(want, " "), 400)))
+		}
+	})
 	// Project.tla: workspaces analysed as a project (entry file + what it requires), both modes
 	projectRuns(c, p, 0, "rename")
 	c.poolStats(p)
